@@ -6,6 +6,7 @@ import (
 	"fmt"
 	"os"
 	"path/filepath"
+	"runtime"
 	"sort"
 	"strconv"
 	"strings"
@@ -57,12 +58,12 @@ type WorkerResult struct {
 
 // ViolationOut is a reported violation.
 type ViolationOut struct {
-	Rule   string `json:"rule"`
-	Disc   string `json:"disc"`
-	Detail string `json:"detail"`
-	Seed   uint64 `json:"seed"`
-	Replay string `json:"replay"`
-	Replayed bool `json:"replayed_same"`
+	Rule     string `json:"rule"`
+	Disc     string `json:"disc"`
+	Detail   string `json:"detail"`
+	Seed     uint64 `json:"seed"`
+	Replay   string `json:"replay"`
+	Replayed bool   `json:"replayed_same"`
 }
 
 func envU(name string, def uint64) uint64 {
@@ -148,6 +149,8 @@ func WorkerMain(t *testing.T) {
 			if s := runStarted.Load(); s != 0 && time.Since(time.Unix(0, s)) > w.RunTimeout {
 				os.WriteFile(out+".hang", []byte(fmt.Sprintf("%d", curSeed.Load())), 0o644)
 				fmt.Fprintf(Stderr, "WATCHDOG: run seed=%d exceeded %v\n", curSeed.Load(), w.RunTimeout)
+				buf := make([]byte, 4<<20)
+				Stderr.Write(buf[:runtime.Stack(buf, true)])
 				os.Exit(3)
 			}
 		}
